@@ -3744,6 +3744,8 @@ class Graph(_protocols.GraphProtocol, Sequence[Node], _display.PrettyPrintable):
         if anchor is not None and anchor.graph is not self:
             raise ValueError(f"The node '{anchor!r}' does not belong to this graph.")
         for node in nodes:
+            if not isinstance(node, Node):
+                raise TypeError(f"Expected a Node, got {type(node)}")
             if node.graph is not None and node.graph is not self:
                 raise ValueError(
                     f"The node '{node!r}' belongs to another graph. Please remove it first with Graph.remove()."
@@ -3751,6 +3753,8 @@ class Graph(_protocols.GraphProtocol, Sequence[Node], _display.PrettyPrintable):
 
     def _set_node_graph_to_self_and_assign_names(self, node: Node) -> Node:
         """Set the graph reference for the node and assign names to it and its outputs if they don't have one."""
+        if not isinstance(node, Node):
+            raise TypeError(f"Expected a Node, got {type(node)}")
         if node.graph is not None and node.graph is not self:
             raise ValueError(
                 f"The node '{node!r}' belongs to another graph. Please remove it first with Graph.remove()."
@@ -3933,9 +3937,12 @@ class Graph(_protocols.GraphProtocol, Sequence[Node], _display.PrettyPrintable):
             ValueError: (When ``safe=True``) If the node is still being used by other nodes not to be removed.
         """
         if not isinstance(nodes, Iterable):
-            nodes_set: AbstractSet[Node] = {nodes}
-        else:
-            nodes_set = frozenset(nodes)
+            nodes = (nodes,)
+        nodes = tuple(nodes)
+        for node in nodes:
+            if not isinstance(node, Node):
+                raise TypeError(f"Expected a Node, got {type(node)}")
+        nodes_set: AbstractSet[Node] = frozenset(nodes)
         graph_outputs = frozenset(self.outputs)
         for node in nodes_set:
             if node.graph is not self:
